@@ -1104,7 +1104,7 @@ func c13MenuHS(config, size string) []c13Cmd {
 	case "snapshot-phase/small":
 		labels = []string{"user-upsert:u1:a", "hs-fence:3:target22", "hs-fence:3:target23", "hs-ack:3:idx2", "hs-cleanup:3:through9", "hs-fence:3:no-target"}
 	case "delta-phase/small":
-		labels = []string{"user-upsert:u1:a", "hs-fence:3:no-target", "hs-ack:3:idx1", "hs-cleanup:3:through1", "hs-cleanup:3:through9"}
+		labels = []string{"user-upsert:u1:a", "hs-fence:3:no-target", "hs-ack:3:idx1", "hs-cleanup:3:through1", "hs-cleanup:3:through9", "hs-fence:envelope4-body3"}
 	case "snapshot-phase/full":
 		labels = []string{"user-upsert:u1:a", "user-upsert:u9:b@4", "hs-fence:3:target22", "hs-fence:3:target23", "hs-ack:3:idx2", "hs-cleanup:3:through1", "hs-cleanup:3:through9",
 			"hs-delta:5>3:idx11:user-u3", "hs-delta:5>3:idx12:user-u1", "hs-fence:3:no-target", "hs-fence:envelope4-body3"}
